@@ -1,6 +1,7 @@
 package engine
 
 import (
+	"golang.org/x/tools/go/ssa/ssautil"
 	"fmt"
 	"go/types"
 	"strings"
@@ -313,6 +314,12 @@ func (f *frame) selectStmt(n *ssa.Select) {
 			v := x.fixPtrs(x.vc.freshVal(et, fmt.Sprintf("select.recv%d", i)))
 			f.assume(x.heap.valAssume(f.st, v))
 			f.assume(Implies(And(Eq(idx, IntLit(int64(i))), Not(okc)), x.chanClosed(f.st, ch)))
+			if !x.prog.everSent(s.Chan.Type()) {
+				// nothing in the repository sends on channels of this type (they are only closed):
+				// a receive can only complete because the channel was closed
+				x.vc.Assume["channels of type "+s.Chan.Type().String()+" are never sent on in the repository (checked syntactically); a receive completes only after close"] = true
+				f.assume(Implies(Eq(idx, IntLit(int64(i))), Not(okc)))
+			}
 			zero := x.vc.zeroVal(et)
 			out.Fs = append(out.Fs, x.vc.iteVal(okc, v, zero))
 		} else {
@@ -603,3 +610,34 @@ func (sc *modScanner) contract(ct *Contract) {
 }
 
 var _ = fmt.Sprint
+
+// everSent: does any function of the repository send on a channel of this type?
+func (prog *Program) everSent(ct types.Type) bool {
+	if prog.sentTypes == nil {
+		prog.sentTypes = map[string]bool{}
+		for fn := range ssautil.AllFunctions(prog.SSA) {
+			if !prog.isRepoFunc(fn) {
+				continue
+			}
+			for _, b := range fn.Blocks {
+				for _, in := range b.Instrs {
+					switch n := in.(type) {
+					case *ssa.Send:
+						prog.sentTypes[typeKey(under(n.Chan.Type()).(*types.Chan).Elem())] = true
+					case *ssa.Select:
+						for _, st := range n.States {
+							if st.Dir == types.SendOnly {
+								prog.sentTypes[typeKey(under(st.Chan.Type()).(*types.Chan).Elem())] = true
+							}
+						}
+					}
+				}
+			}
+		}
+	}
+	c, ok := under(ct).(*types.Chan)
+	if !ok {
+		return true
+	}
+	return prog.sentTypes[typeKey(c.Elem())]
+}
